@@ -1049,6 +1049,24 @@ class _SSeq:
         out.append(self._new(self.items[start:]))
         return [x._maybe_concrete() for x in out]
 
+    def replace(self, old, new, count=-1):
+        c = self._coerce(old)
+        r = self._coerce(new)
+        if c is None or r is None:
+            raise TypeError("replace() arguments must be of the same kind")
+        n, k, i, out = len(self.items), len(c), 0, []
+        if k == 0:
+            raise Inconclusive("replace of an empty pattern on symbolic text is not encoded")
+        while i < n:
+            if i <= n - k and count != 0 and self._new(self.items[i:i + k]) == old:
+                out.extend(r)
+                i += k
+                count -= 1
+            else:
+                out.append(self.items[i])
+                i += 1
+        return self._new(out)._maybe_concrete()
+
     def _maybe_concrete(self):
         return self
 
